@@ -31,6 +31,7 @@ type vCase struct {
 	Interval int64   `json:"interval"`
 	Bad      []int64 `json:"bad"`
 	Nclients int     `json:"nclients"`
+	Gateq    bool    `json:"gateq"` // park the flusher at shallQuit until "qgo"
 	Ops      [][]any `json:"ops"`
 }
 
@@ -43,6 +44,8 @@ type vObs struct {
 	Cmd      bool      `json:"cmd"`
 	Tick     bool      `json:"tick"`
 	Benter   bool      `json:"benter"`
+	Bexit    bool      `json:"bexit"`
+	Qpark    bool      `json:"qpark"`
 }
 
 type vStep struct {
@@ -143,12 +146,12 @@ func vRelevant(stack string) bool {
 // vQuiesce waits until every goroutine of the executor and every client is blocked
 // (two consecutive censuses).  benter: the flusher is blocked in enterExecution for a
 // batch it received from the commander channel.
-func vQuiesce() (ok bool, benter bool) {
+func vQuiesce() (ok bool, benter bool, bexit bool) {
 	deadline := time.Now().Add(5 * time.Second)
 	stable := 0
 	for spin := 0; ; spin++ {
 		busy := false
-		benter = false
+		benter, bexit = false, false
 		for _, g := range vStacks() {
 			if !vRelevant(g) {
 				continue
@@ -161,17 +164,21 @@ func vQuiesce() (ok bool, benter bool) {
 				!strings.Contains(g, "(*PeriodicalExecutor).Flush") {
 				benter = true
 			}
+			if strings.Contains(g, "backgroundFlush.func1") && strings.Contains(g, ").enterExecution") &&
+				strings.Contains(g, "(*PeriodicalExecutor).Flush") {
+				bexit = true
+			}
 		}
 		if !busy {
 			stable++
 			if stable >= 2 {
-				return true, benter
+				return true, benter, bexit
 			}
 		} else {
 			stable = 0
 		}
 		if time.Now().After(deadline) {
-			return false, benter
+			return false, benter, bexit
 		}
 		if spin < 50 {
 			runtime.Gosched()
@@ -189,6 +196,7 @@ type vRun struct {
 	mu      sync.Mutex
 	parked  []*vGate
 	ticker  *vTicker
+	qgate   chan struct{}
 	clients []*vClient
 	bad     map[int64]bool
 }
@@ -240,8 +248,8 @@ func (r *vRun) release(g *vGate) {
 	close(g.ch)
 }
 
-func (r *vRun) observe(benter bool) vObs {
-	o := vObs{Benter: benter, Parked: [][]int64{}, Cont: []int64{}}
+func (r *vRun) observe(benter, bexit bool) vObs {
+	o := vObs{Benter: benter, Bexit: bexit, Parked: [][]int64{}, Cont: []int64{}}
 	for _, c := range r.clients {
 		o.Idle = append(o.Idle, c.idle.Load())
 	}
@@ -260,6 +268,7 @@ func (r *vRun) observe(benter bool) vObs {
 	if r.ticker != nil && !r.ticker.stopped.Load() {
 		o.Tick = len(r.ticker.c) > 0
 	}
+	o.Qpark = r.qgate != nil
 	r.mu.Unlock()
 	return o
 }
@@ -298,6 +307,26 @@ func vRunCase(c vCase) (out vOut) {
 		return t
 	}
 	timex.SetFakeNow(1000000)
+	if c.Gateq {
+		hook := func() {
+			g := make(chan struct{})
+			r.mu.Lock()
+			r.qgate = g
+			r.mu.Unlock()
+			<-g
+		}
+		timex.SinceHook.Store(&hook)
+	}
+	qgo := func() bool {
+		r.mu.Lock()
+		g := r.qgate
+		r.qgate = nil
+		r.mu.Unlock()
+		if g != nil {
+			close(g)
+		}
+		return g != nil
+	}
 	for i := 0; i < c.Nclients; i++ {
 		cl := &vClient{cmds: make(chan func())}
 		cl.idle.Store(true)
@@ -305,12 +334,12 @@ func vRunCase(c vCase) (out vOut) {
 		go verifClient(cl)
 	}
 	settle := func(act []any) bool {
-		ok, benter := vQuiesce()
+		ok, benter, bexit := vQuiesce()
 		if !ok {
 			out.Err = "no quiescence after " + toJSON(act)
 			return false
 		}
-		out.Steps = append(out.Steps, vStep{Act: act, Obs: r.observe(benter)})
+		out.Steps = append(out.Steps, vStep{Act: act, Obs: r.observe(benter, bexit)})
 		return true
 	}
 	start := func(ci int, f func()) bool {
@@ -366,6 +395,10 @@ func vRunCase(c vCase) (out vOut) {
 					break
 				}
 			}
+		case "qgo":
+			if qgo() {
+				okRun = settle([]any{"qgo"})
+			}
 		case "tick":
 			tick()
 			okRun = settle([]any{"tick"})
@@ -377,12 +410,14 @@ func vRunCase(c vCase) (out vOut) {
 	}
 	// clean-up (not part of the observed history): let everything finish and make
 	// the flusher quit so that no goroutine of this case survives
+	timex.SinceHook.Store(nil)
 	for i := 0; i < 50; i++ {
+		qgo()
 		ps := r.sortedParked()
 		for _, g := range ps {
 			r.release(g)
 		}
-		if ok, _ := vQuiesce(); !ok {
+		if ok, _, _ := vQuiesce(); !ok {
 			break
 		}
 		r.pe.lock.Lock()
